@@ -55,6 +55,7 @@ type FuncContract struct {
 // ReachClause: the statement with the given source text may be reached only
 // when the condition holds (a gate / dominance obligation).
 type ReachClause struct {
+	Nth    int // 0: every statement with this text; k>0: only the k-th in source order
 	Stmt   string
 	Clause *Clause
 }
@@ -300,6 +301,15 @@ func parseContractFile(path, pkgPath string) (*ContractFile, error) {
 			}
 			// reach "<statement text>" only_if <expr>
 			q := strings.TrimSpace(rest)
+			nth := 0
+			if len(q) > 0 && q[0] >= '1' && q[0] <= '9' {
+				j := 0
+				for j < len(q) && q[j] >= '0' && q[j] <= '9' {
+					j++
+				}
+				nth, _ = strconv.Atoi(q[:j])
+				q = strings.TrimSpace(q[j:])
+			}
 			if !strings.HasPrefix(q, "\"") {
 				return nil, fmt.Errorf("%s:%d: reach \"<statement>\" only_if <expr>", path, rl.line)
 			}
@@ -329,7 +339,7 @@ func parseContractFile(path, pkgPath string) (*ContractFile, error) {
 			if err != nil {
 				return nil, err
 			}
-			cur.Reach = append(cur.Reach, &ReachClause{Stmt: normText(stmt), Clause: c})
+			cur.Reach = append(cur.Reach, &ReachClause{Nth: nth, Stmt: normText(stmt), Clause: c})
 		case "nopanic":
 			if err := needCur(); err != nil {
 				return nil, err
